@@ -117,6 +117,8 @@ def run_one(tape: Tape, tier: str, opts: dict) -> dict:
             tkind = "-"
             if tape.bool(0.25, "multi_traj") and case["backend"] in ("sv", "mps-tdvp"):
                 noise, ntraj, tkind = gen_traj_noise(tape)
+                if case["scn"].get("xy"):
+                    noise = C.xy_compatible(noise) or {"dephasing_rate": 0.5}
                 case["cfg"]["noise"] = noise
                 case["cfg"]["n_trajectories"] = ntraj
             S.make_config(case["scn"], case["cfg"])
